@@ -254,8 +254,21 @@ def canon(v):
     return (type(v).__name__, repr(v))
 
 
+def _adapter():
+    """The library's adapter factory (an internal seam).  When the tree under test has moved or
+    renamed it the adapter-level sub-checks have no opinion (the end-to-end seam still runs)."""
+    try:
+        from statemachine.dispatcher import callable_method
+        return callable_method
+    except ImportError:
+        return None
+
+
 def check_seam_a(res, sig, kind, shapes, uniq, falsy=None):
-    from statemachine.dispatcher import callable_method
+    callable_method = _adapter()
+    if callable_method is None:
+        res.stats["seam_a_unavailable"] = 1
+        return
     if falsy:
         shapes = [(tuple(falsify(a, falsy) for a in args),
                    {k: falsify(v, falsy) for k, v in ukw.items()}) for (args, ukw) in shapes]
@@ -532,11 +545,18 @@ def family_callable(i, variant):
 
 
 def check_independence(res):
-    from statemachine.dispatcher import callable_method
+    callable_method = _adapter()
+    if callable_method is None:
+        res.stats["seam_a_unavailable"] = 1
+        return
     shapes = [(("p0", "p1"), {"x": "U_x"}), ((), {"x": "U_x", "extra": "U_e"}),
               (("p0",), {"args": "U_args", "kwargs": "U_kwargs"})]
-    from statemachine.signature import SignatureAdapter
-    clear = getattr(getattr(SignatureAdapter.from_callable, "__func__", None), "clear_cache", None)
+    try:
+        from statemachine.signature import SignatureAdapter
+        clear = getattr(getattr(SignatureAdapter.from_callable, "__func__", None),
+                        "clear_cache", None)
+    except ImportError:
+        clear = None
     pairs = [(v, i, j) for v in ("function", "method", "partial", "wrapped")
              for i, j in itertools.permutations(range(len(FAMILY)), 2)]
     pairs += [("same-fn-partial", i, j) for i, j in itertools.permutations(range(len(PARTIALS)), 2)]
@@ -838,6 +858,7 @@ def run(tier, seed):
         "signatures": n, "call_shapes": len(call_shapes()),
         "independence_bindings": total.stats["independence_bindings"],
         "user_keyword_names": total.stats.get("user_names", 0),
+        "adapter_seam_available": not total.stats.get("seam_a_unavailable"),
         "outcome_histogram": dict(total.hist),
         "samples": total.samples or [{"note": "no sample"}],
         "rule": "states = signatures (x callable kinds); transitions = bindings executed on the "
